@@ -274,6 +274,115 @@ impl<'a> AnfCk<'a> {
     }
 }
 
+/// Core: every expression node carries its type; the carried type must be the type of what the
+/// node evaluates to (a `let` has the type of its body, a branch construct the type of each
+/// branch, a projection the component's type, a variable its binder's type). Later stages read
+/// these annotations (trait dispatch reads the receiver's), so a stale one is a wrong program.
+struct CoreCk {
+    errs: Vec<String>,
+    fn_name: String,
+}
+
+impl CoreCk {
+    fn err(&mut self, m: String) {
+        if self.errs.len() < 5 {
+            self.errs.push(format!("in {}: {}", self.fn_name, m));
+        }
+    }
+    fn same(&mut self, what: &str, carried: &Ty, actual: &Ty) {
+        // a diverging sub-expression (missing / a loop) may carry any type
+        if !ty_eq(carried, actual) {
+            self.err(format!("{} carries type {:?} but evaluates to {:?}", what, carried, actual));
+        }
+    }
+    fn expr(&mut self, e: &compiler::core::Expr, env: &mut Vec<(String, Ty)>) {
+        use compiler::core::Expr as X;
+        match e {
+            X::EVar { name, ty } => {
+                if let Some((_, bt)) = env.iter().rev().find(|(n, _)| n == name) {
+                    let bt = bt.clone();
+                    self.same(&format!("variable {}", name), ty, &bt);
+                }
+            }
+            X::EPrim { .. } => {}
+            X::EConstr { args, .. } => args.iter().for_each(|a| self.expr(a, env)),
+            X::ETuple { items, ty } => {
+                items.iter().for_each(|a| self.expr(a, env));
+                let actual = Ty::TTuple { typs: items.iter().map(|i| i.get_ty()).collect() };
+                self.same("tuple", ty, &actual);
+            }
+            X::EArray { items, .. } => items.iter().for_each(|a| self.expr(a, env)),
+            X::EClosure { params, body, .. } => {
+                let n = env.len();
+                for p in params {
+                    env.push((p.name.clone(), p.ty.clone()));
+                }
+                self.expr(body, env);
+                env.truncate(n);
+            }
+            X::ELet { name, value, body, ty } => {
+                self.expr(value, env);
+                env.push((name.clone(), value.get_ty()));
+                self.expr(body, env);
+                env.pop();
+                self.same(&format!("let {}", name), ty, &body.get_ty());
+            }
+            X::EMatch { expr, arms, default, ty } => {
+                self.expr(expr, env);
+                for a in arms {
+                    self.expr(&a.body, env);
+                    if !is_missing(&a.body) {
+                        self.same("match arm", ty, &a.body.get_ty());
+                    }
+                }
+                if let Some(d) = default {
+                    self.expr(d, env);
+                    if !is_missing(d) {
+                        self.same("match default", ty, &d.get_ty());
+                    }
+                }
+            }
+            X::EIf { cond, then_branch, else_branch, ty } => {
+                self.expr(cond, env);
+                self.expr(then_branch, env);
+                self.expr(else_branch, env);
+                self.same("if condition", &Ty::TBool, &cond.get_ty());
+                self.same("then branch", ty, &then_branch.get_ty());
+                self.same("else branch", ty, &else_branch.get_ty());
+            }
+            X::EWhile { cond, body, .. } => {
+                self.expr(cond, env);
+                self.expr(body, env);
+            }
+            X::EGo { expr, .. } | X::EUnary { expr, .. } | X::EToDyn { expr, .. } | X::EConstrGet { expr, .. } => self.expr(expr, env),
+            X::EBinary { lhs, rhs, .. } => {
+                self.expr(lhs, env);
+                self.expr(rhs, env);
+            }
+            X::ECall { func, args, .. } => {
+                self.expr(func, env);
+                args.iter().for_each(|a| self.expr(a, env));
+            }
+            X::EDynCall { receiver, args, .. } | X::ETraitCall { receiver, args, .. } => {
+                self.expr(receiver, env);
+                args.iter().for_each(|a| self.expr(a, env));
+            }
+            X::EProj { tuple, index, ty } => {
+                self.expr(tuple, env);
+                if let Ty::TTuple { typs } = tuple.get_ty() {
+                    if let Some(ct) = typs.get(*index) {
+                        self.same(&format!("projection .{}", index), ty, ct);
+                    }
+                }
+            }
+        }
+    }
+}
+
+fn is_missing(e: &compiler::core::Expr) -> bool {
+    matches!(e, compiler::core::Expr::ECall { func, .. } if matches!(&**func, compiler::core::Expr::EVar { name, .. } if name == "missing"))
+}
+
 pub struct IrStats {
     pub anf_nodes: u64,
 }
@@ -309,6 +418,18 @@ pub fn check_all(c: &Compilation) -> Vec<(&'static str, String)> {
         }
         for e in ck.errs {
             out.push(("anf", e));
+        }
+    }
+    // --- Core: carried types
+    for f in &c.core.toplevels {
+        let mut ck = CoreCk { errs: Vec::new(), fn_name: f.name.clone() };
+        let mut env: Vec<(String, Ty)> = f.params.clone();
+        ck.expr(&f.body, &mut env);
+        if !is_missing(&f.body) {
+            ck.same("function body", &f.ret_ty, &f.body.get_ty());
+        }
+        for e in ck.errs {
+            out.push(("core", e));
         }
     }
     // --- residue scans (Mono / Lift): no type parameter, inference variable or generic application
